@@ -1,7 +1,8 @@
 (* glue for the correspondence file Cases_C20v.v written by harness/c20v (stage "model"):
    every case is an abstract input of M_Validate together with what the REAL fx-core code did on a concrete
    (wire-level) instance of that abstract input. *)
-From Coq Require Import ZArith List Bool String.
+From Coq Require Import ZArith List Bool.
+From Coq Require Export String.
 From FxV Require Import model.M_Validate.
 Import ListNotations.
 Open Scope string_scope.
